@@ -1,7 +1,7 @@
 """C12 - patterns, switch, runtime type annotations (static clauses)."""
 import re
 from .core import (CheckError, find_match, arm_region, pat_str, strip_ref, short, only_when,
-                   Registry, every_path_passes_correlated, pat_subsumes, pat_disjoint)
+                   Registry, every_path_passes_correlated, pat_subsumes, pat_disjoint, pat_paths, origins)
 
 META = {
     'level': 'other',
@@ -282,7 +282,8 @@ def run(F, rep, tier):
 
     # ---------------- R12.5
     rep.rule('R12.5', 'assign_all: every usize subtraction on the lengths of the pattern and of the value is '
-             'dominated by a comparison of those same quantities (no underflow on short inputs)')
+             'dominated by a comparison of those same quantities (no underflow on short inputs); the number of items a default needs is the '
+             'count of non-splat positions before it, not its raw position')
     aa = None
     for p in F.fns:
         if p == 'eval::assign_all' or p.endswith('::assign_all'):
@@ -316,6 +317,30 @@ def run(F, rep, tier):
             else:
                 rep.viol('R12.5', '%s|Overflow:Sub|#%d' % (aa, n), 'usize subtraction of lengths not dominated by a comparison (underflows on a too-short value)', ab.loc(bb))
         rep.floor('R12.5', 'subtractions in assign_all', n, 2)
+
+        # defaults: the enumerate index counts the splat position too, so the threshold "a default is in play" cannot be the
+        # raw index on every path
+        wm = find_match(F, aa, r'eval::EvaluatedLvalue', min_arms=3)
+        nthr = 0
+        if wm:
+            for i, a in enumerate(wm['arms']):
+                if not any(p_.endswith('::WithDefault') for p_ in pat_paths(a['pat'])):
+                    continue
+                regn = arm_region(F, ab, wm, i)
+                for bb in sorted(regn):
+                    for s_ in ab.stmts(bb):
+                        if s_[0] == 'a' and s_[2][0] == 'bin' and s_[2][1] in ('Le', 'Lt', 'Ge', 'Gt'):
+                            sides = [origins(ab, op) for op in s_[2][2:4]]
+                            if not any(any(o[0] == 'param' and o[1] == 'rhs_len' for o in sd) for sd in sides):
+                                continue
+                            nthr += 1
+                            other = [sd for sd in sides if not any(o[0] == 'param' and o[1] == 'rhs_len' for o in sd)]
+                            raw = other and all(o[0] == 'call' and o[1].endswith('::next') for o in other[0])
+                            if raw:
+                                rep.viol('R12.5', '%s|WithDefault|raw-index' % aa, 'the test "is this default in play" compares the length of the value with the raw position of the default in the pattern; that position also counts a preceding ...splat, so after a splat a trailing item that IS present is replaced by its default (`\\a, ...b, c = 5` applied to two arguments)', ab.loc(bb))
+                            else:
+                                rep.ok('R12.5', 'default threshold', 'position adjusted for a preceding splat: %s' % sorted(str(o[:2]) for o in (other[0] if other else [])))
+        rep.floor('R12.5', 'default-in-play comparisons in assign_all', nthr, 1)
 
     # ---------------- R12.6
     rep.rule('R12.6', 'operator patterns invert their constructor with the inverse operation (table over every Builtin::destructure override): '
